@@ -42,7 +42,14 @@ type c15Req struct {
 	Token   int64
 	ReplyAt time.Time // reply not before this instant (zero: at once)
 	Never   bool
+	Stash   bool // the responder stashes the request once and answers it after unstashing
 	Marker  bool // harness quiescence marker, not part of the ledger
+}
+
+// c15TellRep is what the receivers of background Tells pass to ctx.Response: legal and a
+// no-op on a Tell; it belongs to no Ask, so no Ask may ever return it.
+type c15TellRep struct {
+	N int64
 }
 
 type c15Rep struct {
@@ -56,7 +63,9 @@ type c15Ledger struct {
 	tR      []atomic.Int64 // per token: stamp taken after Response returned (ns since base, +1)
 	// diagnosis only: state of the reply path right before the responder called Response
 	// (1 = open, 2 = responseClosed already true, +4 = channel already held a value)
-	pre []atomic.Int32
+	pre     []atomic.Int32
+	stashed []atomic.Bool // per token: the responder stashed the request (once)
+	stashes atomic.Int64
 	// reuse observation (how often pooled objects came back)
 	mu        sync.Mutex
 	ctxSeen   map[*ReceiveContext]int
@@ -72,7 +81,7 @@ func (l *c15Ledger) now() int64 { return int64(time.Since(l.base)) + 1 }
 var c15TokenCtr atomic.Int64
 
 func c15NewLedger(n int) *c15Ledger {
-	return &c15Ledger{base: time.Now(), tokBase: c15TokenCtr.Add(int64(n)) - int64(n), seen: make([]atomic.Int64, n), tR: make([]atomic.Int64, n), pre: make([]atomic.Int32, n),
+	return &c15Ledger{base: time.Now(), tokBase: c15TokenCtr.Add(int64(n)) - int64(n), seen: make([]atomic.Int64, n), tR: make([]atomic.Int64, n), pre: make([]atomic.Int32, n), stashed: make([]atomic.Bool, n),
 		ctxSeen: map[*ReceiveContext]int{}, chanSeen: map[chan any]int{}}
 }
 
@@ -82,7 +91,16 @@ func (l *c15Ledger) mine(tok int64) bool {
 }
 
 type c15Responder struct {
-	led *c15Ledger
+	led    *c15Ledger
+	nStash int // stashed and not yet released (only touched in Receive)
+}
+
+// release re-delivers what was stashed (after any other message was handled).
+func (a *c15Responder) release(ctx *ReceiveContext) {
+	if a.nStash > 0 {
+		a.nStash = 0
+		ctx.UnstashAll()
+	}
 }
 
 func (a *c15Responder) PreStart(*Context) error { return nil }
@@ -94,6 +112,7 @@ func (a *c15Responder) Receive(ctx *ReceiveContext) {
 	}
 	if m.Marker {
 		ctx.Response(&c15Rep{Token: m.Token})
+		a.release(ctx)
 		return
 	}
 	led := a.led
@@ -102,6 +121,14 @@ func (a *c15Responder) Receive(ctx *ReceiveContext) {
 	}
 	ix := led.idx(m.Token)
 	led.seen[ix].Store(led.now())
+	if m.Stash && led.stashed[ix].CompareAndSwap(false, true) {
+		// the turn ends without a reply; the Ask stays pending until the re-delivery
+		led.stashes.Add(1)
+		a.nStash++
+		ctx.Stash()
+		return
+	}
+	defer a.release(ctx)
 	led.mu.Lock()
 	led.ctxSeen[ctx]++
 	if led.ctxSeen[ctx] > 1 {
@@ -181,7 +208,8 @@ func (a *c15Sink) Receive(ctx *ReceiveContext) {
 		a.once = true
 		<-a.gate
 	}
-	a.n.Add(1)
+	// a Tell receiver may call Response: nothing awaits it, it must go nowhere
+	ctx.Response(&c15TellRep{N: a.n.Add(1)})
 }
 
 type c15Bg struct{}
@@ -265,6 +293,7 @@ type c15Obs struct {
 	CtxReuse, ChanReuse                        int64
 	PoolLenStart                               int
 	BgTells                                    int64
+	Stashes                                    int64
 	HotSites                                   []string
 	Yields, Delays                             int64
 	Viol                                       []c15Viol
@@ -457,7 +486,7 @@ func c15RunCase(t *testing.T, k c15Knobs, seed int64) c15Obs {
 	var names []string
 	for i := 0; i < k.Responders; i++ {
 		name := fmt.Sprintf("resp%d", i)
-		pid, err := sys.Spawn(ctx, name, &c15Responder{led: led}, WithLongLived())
+		pid, err := sys.Spawn(ctx, name, &c15Responder{led: led}, WithLongLived(), WithStashing())
 		if err != nil {
 			t.Fatalf("spawn responder: %v", err)
 		}
@@ -556,8 +585,11 @@ func c15RunCase(t *testing.T, k c15Knobs, seed int64) c15Obs {
 				}
 				roll := crng.Intn(100)
 				switch {
-				case roll < 45:
+				case roll < 37:
 					op.Profile = "prompt"
+					op.Timeout = time.Duration(120+crng.Intn(130)) * time.Millisecond
+				case roll < 45:
+					op.Profile = "stash"
 					op.Timeout = time.Duration(120+crng.Intn(130)) * time.Millisecond
 				case roll < 68:
 					op.Profile = "jit"
@@ -608,6 +640,8 @@ func c15RunCase(t *testing.T, k c15Knobs, seed int64) c15Obs {
 							rq.ReplyAt = start.Add(limit + time.Duration(5000+crng.Intn(15000))*time.Microsecond)
 						case "never":
 							rq.Never = true
+						case "stash":
+							rq.Stash = true
 						}
 					}
 					op.Tokens = append(op.Tokens, tok)
@@ -695,7 +729,9 @@ func c15RunCase(t *testing.T, k c15Knobs, seed int64) c15Obs {
 
 	// quiescence: the mailboxes are FIFO, so when a marker is answered every earlier
 	// request of that responder has been handled (late replies included)
-	if obs.Inconclusive == "" && obs.Hang == "" {
+	// (two rounds: the first marker also releases what is still stashed, which is
+	// re-enqueued behind it)
+	for round := 0; round < 2 && obs.Inconclusive == "" && obs.Hang == ""; round++ {
 		for i, rp := range responders {
 			mtok := -1 - c15TokenCtr.Add(1)
 			rep, err := Ask(ctx, rp, &c15Req{Token: mtok, Marker: true}, 60*time.Second)
@@ -716,6 +752,7 @@ func c15RunCase(t *testing.T, k c15Knobs, seed int64) c15Obs {
 		close(park.gate)
 	}
 	obs.BgTells = bgSent.Load()
+	obs.Stashes = led.stashes.Load()
 	if obs.Inconclusive != "" || obs.Hang != "" {
 		return obs
 	}
@@ -769,6 +806,11 @@ func c15RunCase(t *testing.T, k c15Knobs, seed int64) c15Obs {
 			}
 		} else {
 			d["got"] = fmt.Sprintf("%#v", got)
+		}
+		if _, ok := got.(*c15TellRep); ok {
+			d["got_belongs_to"] = "no Ask at all: it is what a receiver of a background Tell passed to ctx.Response"
+			obs.Viol = append(obs.Viol, c15Viol{Sig: "wrong-reply:" + c15Impl(op.API) + ":reply-from-a-tell-receiver", Detail: d})
+			return
 		}
 		obs.Viol = append(obs.Viol, c15Viol{Sig: "wrong-reply:" + c15Impl(op.API), Detail: d})
 	}
@@ -904,7 +946,7 @@ func c15RunCase(t *testing.T, k c15Knobs, seed int64) c15Obs {
 func TestVerif_C15(t *testing.T) {
 	r := verifrt.Start(t, "C15")
 	defer r.Finish()
-	r.Rule("case = fresh actor system, 4-64 concurrent callers x 7-30 Ask-family calls (PID.Ask, package Ask, SendSync, ReceiveContext.Ask/SendSync/BatchAsk, BatchAsk) against 1-4 responders; per call a profile: prompt reply with a long timeout (120-250 ms: the in-time judged population), reply just around / after a 5-40 ms timeout, never, context cancellation; context pool kept empty by a parked backlog (or cycled by heavy Tell traffic), 0-3 hot noise sites drawn from the sites only Ask traffic passes (found by differential site-hit calibration); oracle = token echo + in-time ledger with 50 ms margin (lower bounds only); non-trivial = successes, timeouts, late replies and pooled channel reuse all observed in the case; distinct by knob tuple and seed")
+	r.Rule("case = fresh actor system, 4-64 concurrent callers x 7-30 Ask-family calls (PID.Ask, package Ask, SendSync, ReceiveContext.Ask/SendSync/BatchAsk, BatchAsk) against 1-4 responders; per call a profile: prompt reply with a long timeout (120-250 ms: the in-time judged population), reply just around / after a 5-40 ms timeout, never, stashed by the responder and answered after unstash, context cancellation; every receiver of the background Tells calls ctx.Response with a token that belongs to no Ask; context pool kept empty by a parked backlog (or cycled by heavy Tell traffic), 0-3 hot noise sites drawn from the sites only Ask traffic passes (found by differential site-hit calibration); oracle = token echo + in-time ledger with 50 ms margin (lower bounds only); non-trivial = successes, timeouts, late replies and pooled channel reuse all observed in the case; distinct by knob tuple and seed")
 	r.Assume("time.Now is monotone within the process; a goroutine blocked in select is completed by the sender at send time, so a reply sent >50 ms before the deadline cannot lose against the timer by scheduling jitter")
 	c15Calibrate(t)
 	r.Note("ask-only sites: %v", c15SiteNames(c15AskSites))
@@ -946,6 +988,7 @@ func TestVerif_C15(t *testing.T) {
 		r.Count("receive_context_reuses", obs.CtxReuse)
 		r.Count("response_channel_reuses", obs.ChanReuse)
 		r.Count("background_tells", obs.BgTells)
+		r.Count("asks_stashed_by_responder", obs.Stashes)
 		r.Count("noise_yields", obs.Yields)
 		r.Count("noise_delays_injected", obs.Delays)
 		for _, v := range obs.Viol {
